@@ -396,6 +396,7 @@ package jparse
 // slices of nodes have no nil elements. (Assumed where loaded, checked where stored or allocated.)
 //@ nonnil payload jparse.Node
 //@ nonnil elems jparse.Node
+//@ nonnil field jparse.RegexNode.Value
 //@ nonnil field jparse.NegationNode.RHS jparse.RangeNode.LHS jparse.RangeNode.RHS jparse.LambdaNode.Body jparse.TypedLambdaNode.LambdaNode
 //@ nonnil field jparse.ObjectTransformationNode.Pattern jparse.ObjectTransformationNode.Updates jparse.PartialNode.Func jparse.FunctionCallNode.Func
 //@ nonnil field jparse.PredicateNode.Expr jparse.GroupNode.Expr jparse.GroupNode.ObjectNode jparse.ConditionalNode.If jparse.ConditionalNode.Then jparse.AssignmentNode.Value
